@@ -1,5 +1,9 @@
 mod c01;
 mod c05;
+mod c06;
+mod c07;
+mod c08;
+mod c17;
 mod common;
 mod refmodel;
 mod sweep;
@@ -16,6 +20,9 @@ fn main() {
     let args: Vec<String> = std::env::args().skip(1).collect();
     if args.is_empty() {
         usage();
+    }
+    if args[0] == "c06-probe" {
+        std::process::exit(c06::probe_main(&args[1..]));
     }
     if args[0] == "sweep-worker" {
         std::process::exit(sweep::worker_main(&args[1..]));
@@ -67,8 +74,11 @@ fn main() {
     let t0 = now();
     if let Some(path) = ctx.replay.clone() {
         let code = match ctx.id.as_str() {
-            "C01" | "C02" | "C03" => c01::replay(&ctx, &path),
+            "C01" | "C02" | "C03" | "C04" => c01::replay(&ctx, &path),
             "C05" => c05::replay(&ctx, &path),
+            "C06" => c06::replay(&ctx, &path),
+            "C17" => c17::replay(&ctx, &path),
+            "C07" => c07::replay(&ctx, &path),
             _ => {
                 eprintln!("no replay for {}", ctx.id);
                 2
@@ -80,7 +90,12 @@ fn main() {
         "C01" => c01::run_c01(&ctx),
         "C02" => c01::run_c02(&ctx),
         "C03" => c01::run_c03(&ctx),
+        "C04" => c01::run_c04_supp(&ctx),
         "C05" => c05::run(&ctx),
+        "C06" => c06::run(&ctx),
+        "C17" => c17::run(&ctx),
+        "C07" => c07::run(&ctx),
+        "C08" => c08::run(&ctx),
         _ => usage(),
     };
     let code = finish(&ctx, &rep, t0.elapsed().as_secs_f64());
